@@ -108,6 +108,7 @@ var (
 	thrStart chan struct{}
 	thrPanic string
 	yieldN   uint32
+	startN   uint32
 )
 
 var thrStarted bool
@@ -205,6 +206,11 @@ func Go(f func()) {
 			}
 		}()
 		<-start
+		// the start order is a schedule choice of the engine; natively the goroutines
+		// leave the barrier a little apart, differently on every repetition
+		if n := atomic.AddUint32(&startN, 1); n%4 != 0 {
+			time.Sleep(time.Duration(n%4) * time.Duration(30+n%7*10) * time.Microsecond)
+		}
 		f()
 	}()
 }
